@@ -76,6 +76,14 @@ func (ex *Exec) setupGhostsAndSpecs() error {
 		if pk.Types.Scope().Lookup(g.Name) == nil {
 			pk.Types.Scope().Insert(types.NewFunc(token.NoPos, pk.Types, g.Name, sig))
 		}
+		if g.Heap && sig.Results().Len() == 1 {
+			rs := leafSort(sig.Results().At(0).Type())
+			if sig.Params().Len() == 0 {
+				ghostSorts[g.Name] = arrSort(SInt, rs)
+			} else {
+				ghostSorts[g.Name] = arrSort(SPtr, rs)
+			}
+		}
 	}
 	for _, s := range ex.cs.Specs {
 		pk := ex.prog.Pkgs[s.PkgPath]
